@@ -487,13 +487,7 @@ impl<'a> Gen<'a> {
         let mut srcs = vec![*self.rng.pick(cands)];
         if cands.len() >= 2 && self.rng.chance(1, 3) {
             let j = *self.rng.pick(cands);
-            // Only sources that do not disagree on a common key: which source of a merge
-            // *list* wins is C03's subject, not this property's.
-            let conflict = match (&self.anchors[srcs[0]].1, &self.anchors[j].1) {
-                (AV::Rec(_, a), AV::Rec(_, b)) => a.iter().zip(b).any(|(x, y)| x.is_some() && y.is_some() && x != y),
-                _ => true,
-            };
-            if j != srcs[0] && !conflict {
+            if j != srcs[0] {
                 srcs.push(j);
             }
         }
@@ -510,7 +504,8 @@ impl<'a> Gen<'a> {
         for i in self.order(fds.len()) {
             let fd = &fds[i];
             let fpath = join(path, fd.rust);
-            let merged: Option<V> = src_vals.iter().find_map(|(_, vs)| vs[i].clone());
+            // properties.jsonl C03: "a later element of a merge sequence overrides an earlier one"
+            let merged: Option<V> = src_vals.iter().rev().find_map(|(_, vs)| vs[i].clone());
             let explicit = match &merged {
                 None => true,
                 Some(v) => !self.compat(&fpath, fd.ty, v) || self.rng.chance(1, 3),
